@@ -10,7 +10,7 @@
 From Coq Require Import QArith Reals Qreals List String.
 Set Warnings "-ambiguous-paths".
 From Coquelicot Require Import Coquelicot.
-From TT Require Import Num NumR NumI ParamI Tree M_bdsk P_bdsk P_bdsk_param M_options G_options P_options.
+From TT Require Import Num NumR NumI ParamI Tree M_bdsk P_bdsk P_bdsk_param P_bdsk_refine M_options G_options P_options.
 Import ListNotations.
 Open Scope R_scope.
 
@@ -88,23 +88,36 @@ Theorem C09_split_epoch : forall (l u p : R) (rho t0 t1 t2 : Q) (pre r : list (e
 Proof. exact C09_split. Qed.
 Print Assumptions C09_split_epoch.
 
-(* Refinement invariance of the WHOLE density.
-   Full statement (not proved in this generality): for every skyline eps = pre ++ e :: post, every
-   cut time t1 strictly inside e, every tree, survival flag and removal probabilities (r' = r with
-   the entry of e duplicated):
-       log_prob survival r' (pre ++ e1 :: e2 :: post) tips ints = log_prob survival r eps tips ints.
-   Proved: C09_split_epoch above (the p/q part, any number of epochs), and the case below of a
-   single epoch cut in two, for EVERY tree (any tip and internal heights >= 0), cut anywhere in
-   (0, T) - also exactly on a tip time or a node time -, with and without survival conditioning,
-   without removal probability.  Missing for the full statement: the induction carrying the
-   index shift of searchsorted and of the lineage counts n_i through `pre` and `post`. *)
-Theorem C09_refinement_invariance_partial : forall (l u p : R) (rho c T : Q) survival tips ints,
+(* Refinement invariance of the WHOLE density (proof/P_bdsk_refine.v): for every skyline pre ++ e :: post with
+   ANY number of epochs before and after (contiguous: [chain]; admissible rates: [wf_ep]; first epoch starting
+   at a time >= 0), every cut time c strictly inside e, every tree — no hypothesis on tip or node heights, so
+   tips and nodes exactly on the cut are covered —, with and without survival conditioning, with and without
+   removal probabilities (r with the entry of e duplicated):  cutting e into
+       lower_part e c = (rates of e, rho = 0, [t0, c])    upper_part e c = (rates of e, rho of e, [c, t1])
+   leaves the log density unchanged. *)
+Theorem C09_refinement_invariance : forall survival r pre e post c tips ints,
+  List.Forall wf_ep (pre ++ e :: post)%list -> chain (pre ++ e :: post)%list ->
+  0 <= Q2R (et0 (hd e pre)) ->
+  Q2R (et0 e) < Q2R c < Q2R (et1 e) ->
+  log_prob NumR survival (option_map (dup_at (List.length pre)) r)
+           (pre ++ lower_part e c :: upper_part e c :: post)%list tips ints
+  = log_prob NumR survival r (pre ++ e :: post)%list tips ints.
+Proof. exact refinement_invariance_origin. Qed.
+Print Assumptions C09_refinement_invariance.
+
+(* the special case of a single epoch cut in two, in explicit form *)
+Theorem C09_refinement_invariance_single : forall (l u p : R) (rho c T : Q) survival tips ints,
   0 < l -> 0 < u -> 0 < p -> 0 <= Q2R rho <= 1 -> 0 < Q2R c -> Q2R c < Q2R T ->
   List.Forall (fun h => 0 <= Q2R h) tips -> List.Forall (fun h => 0 <= Q2R h) ints ->
   log_prob NumR survival None [mkEp l u p 0%Q 0%Q c; mkEp l u p rho c T] tips ints
   = log_prob NumR survival None [mkEp l u p rho 0%Q T] tips ints.
 Proof. exact C09_refine2. Qed.
-Print Assumptions C09_refinement_invariance_partial.
+Print Assumptions C09_refinement_invariance_single.
+
+(* non-vacuity: the three-epoch skyline of C09_example is contiguous and admissible, and its middle epoch cut
+   at time 4 gives the same density for every tree and every removal vector *)
+Example C09_refinement_example_admissible := refine_example_admissible.
+Example C09_refinement_example_middle := refine_example_middle.
 
 (* Single epoch = constant model: with m = 1 the skyline density (log_prob) equals the density of
    BirthDeath.log_prob, which the code writes independently (other form of q0, no epochs), for
